@@ -3,6 +3,7 @@ C03 — A successful push leaves every referenced object on the server.
 Property theorems only (obligations of ./check C03).
 -/
 import LfsModel.PushModel
+import LfsModel.PrePush
 
 namespace C03
 open Push PushM
@@ -60,5 +61,39 @@ theorem upload_skips_only_empty_and_seen (seen : List Nat) (oid size : Nat) (h :
 /-- non-vacuity: a fresh cache with two branches -/
 example : Fresh [("a", 1), ("b", 2)] [("b", 2), ("a", 1), ("c", 3)] := by
   intro c hc; simp at hc ⊢; rcases hc with rfl | rfl <;> simp
+
+/-! ### which refs of a push the hook scans at all (commands/command_pre_push.go: prePushRefs) -/
+
+/-- the hook's lines stand each for itself: what one part of the input yields does not depend on
+    what precedes or follows it (a deletion line cannot end the parsing) -/
+theorem prepush_lines_independent (a b : List PrePush.Bytes) :
+    PrePush.parse (a ++ b) = PrePush.parse a ++ PrePush.parse b := PrePush.parse_append a b
+
+/-- EVERY created or updated ref of the push is scanned: the line Git writes for it (four
+    blank-free fields, a non-zero local id), wherever it stands among the other lines —
+    deletions, blank lines, anything — yields exactly its ref update, in line order. -/
+theorem prepush_every_update_scanned (pre post : List PrePush.Bytes) (u : PrePush.Upd)
+    (b : UInt8) (l' : PrePush.Bytes) (e : UInt8) (r' : PrePush.Bytes)
+    (hl : u.lref = b :: l') (hr : u.rsha = r' ++ [e])
+    (h1 : PrePush.NoSp u.lref) (h2 : PrePush.NoSp u.lsha) (h3 : PrePush.NoSp u.rref) (h4 : PrePush.NoSp u.rsha)
+    (hz : PrePush.zeroId u.lsha = false) :
+    PrePush.parse (pre ++ PrePush.line u :: post) = PrePush.parse pre ++ u :: PrePush.parse post :=
+  PrePush.parse_order pre post _ u (PrePush.parseLine_line u b l' e r' hl hr h1 h2 h3 h4 hz)
+
+/-- a deleted ref contributes nothing and takes nothing away -/
+theorem prepush_deletion_skipped (pre post : List PrePush.Bytes) (l rref rsha zero : PrePush.Bytes)
+    (b : UInt8) (l' : PrePush.Bytes) (e : UInt8) (r' : PrePush.Bytes)
+    (hl : l = b :: l') (hr : rsha = r' ++ [e])
+    (h1 : PrePush.NoSp l) (h2 : PrePush.NoSp zero) (h3 : PrePush.NoSp rref) (h4 : PrePush.NoSp rsha)
+    (hz : PrePush.zeroId zero = true) :
+    PrePush.parse (pre ++ PrePush.line ⟨l, zero, rref, rsha⟩ :: post) = PrePush.parse pre ++ PrePush.parse post := by
+  rw [PrePush.parse_append, PrePush.parse_cons_skip _ _
+    (PrePush.parseLine_delete l rref rsha zero b l' e r' hl hr h1 h2 h3 h4 hz)]
+
+/-- non-vacuity: `git push origin :a m` — the deletion line first, then the update -/
+example : PrePush.parse
+    [PrePush.line ⟨[40, 100, 41], List.replicate 40 48, [97], [49, 49]⟩,
+     [], PrePush.line ⟨[109], [50, 50], [109], [51, 51]⟩]
+    = [⟨[109], [50, 50], [109], [51, 51]⟩] := by decide
 
 end C03
